@@ -464,7 +464,7 @@ func runC12(c *mon.Ctx) {
 				signed := false
 				found := false
 				n := int64(8192)
-				for it := 0; it < 200 && !found; it++ {
+				for it := 0; it < 200 && !found && n < 2<<20; it++ {
 					var what string
 					doc, signed, what = pad(ep.kind, n, "p")
 					_ = what
